@@ -264,6 +264,60 @@ func checkImage(live *eng.Runner, img, id, point string, admissible []map[string
 			res.Divergences = append(res.Divergences, crashDiv{ID: id, Point: point, Kind: "not_a_fixed_point", Diff: d})
 		}
 	}
+	// the procedures the dead process was in the middle of are run again on the recovered directory: whatever it left
+	// behind (a complete or a torn rewrite.tmp / snapshot temp file) must not leak into their result
+	if adminAfter {
+		for _, proc := range []string{"RewriteAOF", "SaveSnapshot", "RewriteAOF"} {
+			var err error
+			if proc == "RewriteAOF" {
+				err = c.E.RewriteAOF()
+			} else {
+				err = c.E.SaveSnapshot()
+			}
+			if err != nil {
+				res.Divergences = append(res.Divergences, crashDiv{ID: id, Point: point, Kind: "procedure_after_recovery_failed", Detail: proc + ": " + err.Error()})
+				return
+			}
+			if err := c.Reopen(); err != nil {
+				res.Divergences = append(res.Divergences, crashDiv{ID: id, Point: point, Kind: "open_failed_after_" + proc, Detail: err.Error()})
+				return
+			}
+			res.Checks++
+			if d := eng.Diff("obs", obs, stripProbe(c.Observe())); len(d) > 0 {
+				res.Divergences = append(res.Divergences, crashDiv{ID: id, Point: point, Kind: "procedure_after_recovery_changed_state", Detail: proc, Diff: d})
+				return
+			}
+		}
+	}
+}
+
+// adminAfter: checkImage also runs a compaction, a snapshot and a compaction (each followed by a restart) on the recovered directory
+var adminAfter bool
+
+// tornTemp produces copies of a crash image in which the temporary file `name` ends inside its last frame: k bytes of a
+// frame header (1..9), half a frame, all but one byte.
+func tornTemp(img, name string, res *crashOut) []string {
+	tmp := filepath.Join(img, name)
+	off, size, ok := lastFrame(tmp)
+	if !ok {
+		return nil
+	}
+	var out []string
+	for _, k := range []int64{1, 4, 9, size / 2, size - 1} {
+		if k <= 0 || k >= size {
+			continue
+		}
+		dst := fmt.Sprintf("%s-torn%d", img, k)
+		if copyDir(img, dst) != nil {
+			continue
+		}
+		if os.Truncate(filepath.Join(dst, name), off+k) != nil {
+			os.RemoveAll(dst)
+			continue
+		}
+		out = append(out, dst)
+	}
+	return out
 }
 
 // lastFrame returns the offset and total size of the last frame of a log file.
@@ -449,7 +503,15 @@ func runCrashCase(p eng.Profile, c crashCase, tornAll bool, res *crashOut) {
 		res.Errors = append(res.Errors, c.ID+": RewriteAOF: "+rerr.Error())
 		return
 	}
+	adminAfter = true
+	// the compaction died while it was writing its temporary file: the file ends inside a frame
+	for _, t := range tornTemp(img("rw.tmp_written"), "rewrite.tmp", res) {
+		second = false
+		checkImage(live2, t, c.ID, "rw.tmp_torn", []map[string]any{c.Early}, res)
+	}
+	second = true
 	checkImage(live2, img("rw.tmp_written"), c.ID, "rw.tmp_written", []map[string]any{c.Early}, res)
+	adminAfter = false
 	checkImage(live2, img("rw.replaced"), c.ID, "rw.replaced", []map[string]any{c.RwReplaced}, res)
 	_ = verifhook.Enabled
 }
